@@ -19,6 +19,7 @@ from ..common.logger import resonaateLogError, resonaateLogWarning
 from ..physics.bodies import Earth
 from .dynamics_base import Dynamics, DynamicsErrorFlag
 from .integration_events.finite_thrust import ScheduledFiniteThrust
+from .integration_events.scheduled_impulse import ScheduledImpulse
 
 # Type Checking Imports
 if TYPE_CHECKING:
@@ -136,6 +137,30 @@ class Celestial(Dynamics, metaclass=ABCMeta):
 
         return current_state
 
+    @staticmethod
+    def _dropAppliedImpulses(
+        t_events: ndarray,
+        events: list[ScheduledEventType],
+    ) -> list[ScheduledEventType]:
+        r"""Stop watching for scheduled impulses that were just applied.
+
+        An impulse is applied exactly once. Integration restarts a floating point spacing after
+        the impulse time, where the impulse's event function can still evaluate to zero, so it
+        would otherwise trigger (and be applied) again.
+
+        Args:
+            t_events (``ndarray``): times of events that occurred during integration.
+            events (``list``): event functions that were passed to the integrator.
+
+        Returns:
+            ``list``: event functions to watch for when integration restarts.
+        """
+        return [
+            event
+            for t_event, event in zip(t_events, events)
+            if not (isinstance(event, ScheduledImpulse) and t_event.size > 0)
+        ]
+
     def propagate(
         self,
         initial_time: ScenarioTime | float,
@@ -198,6 +223,7 @@ class Celestial(Dynamics, metaclass=ABCMeta):
                 events,
                 initial_state,
             )
+            events = self._dropAppliedImpulses(solution.t_events, events)
 
             # Retrieve final time, this should auto-exit the loop if fully-integrated
             initial_time = solution.t[-1] + spacing(solution.t[-1])
@@ -301,6 +327,7 @@ class Celestial(Dynamics, metaclass=ABCMeta):
                     # [TODO]: Make this more robust. What about multiple events?
                     current_state=solution.y_events[0].reshape(state_shape),
                 )
+                events = self._dropAppliedImpulses(solution.t_events, events)
 
                 # Properly copies updated state back into full state vector for when
                 # an event occurs on a `times`
